@@ -37,6 +37,24 @@ type prog struct {
 	Main  string         `json:"main"` // name of the entry function (main or Main)
 	Items []item         `json:"items"`
 	Feat  map[string]int `json:"-"`
+	// Sep / End: layout of the source FILE, independent of the program: separator written between two top-level items
+	// and what follows the last item (the last byte of a source file need not be a newline)
+	Sep string `json:"sep,omitempty"`
+	End string `json:"end,omitempty"`
+}
+
+// file layouts: what follows the last top-level item.  "" = the last statement is complete but unterminated
+// (the line reader delivers it together with io.EOF)
+var fileEnds = []struct{ name, end string }{
+	{"blank-line", "\n\n"},
+	{"newline", "\n"},
+	{"no-final-newline", ""},
+	{"spaces-no-newline", " \t"},
+	{"line-comment-no-newline", "\n// end of file"},
+	{"same-line-comment-no-newline", " // end of file"},
+	{"block-comment-no-newline", "\n/* end\n   of file */"},
+	{"semicolon-no-newline", ";"},
+	{"blank-lines-then-spaces", "\n\n\n  "},
 }
 
 func (p *prog) source() string {
@@ -44,9 +62,17 @@ func (p *prog) source() string {
 	if p.Idx%3 == 0 {
 		fmt.Fprintf(&sb, "// program %d (%s)\n// generated\n\n", p.Idx, p.Class)
 	}
-	for _, it := range p.Items {
+	sep := p.Sep
+	if sep == "" {
+		sep = "\n\n"
+	}
+	for i, it := range p.Items {
 		sb.WriteString(it.Src)
-		sb.WriteString("\n\n")
+		if i == len(p.Items)-1 && p.Sep != "" {
+			sb.WriteString(p.End)
+		} else {
+			sb.WriteString(sep)
+		}
 	}
 	return sb.String()
 }
@@ -87,19 +113,19 @@ func (p *prog) expected() string {
 }
 
 type pgen struct {
-	r      *vh.Rng
-	class  string
-	n      int
-	ints   []string // package-level int variables usable in later initialisers (creation order = dependency rank)
-	consts []string // int constants
-	pure   []string // func(a, b int) int
-	rd     []string // func() int reading globals
+	r       *vh.Rng
+	class   string
+	n       int
+	ints    []string // package-level int variables usable in later initialisers (creation order = dependency rank)
+	consts  []string // int constants
+	pure    []string // func(a, b int) int
+	rd      []string // func() int reading globals
 	structs []string
-	named  []string // named int types
-	prints []string // lines of the entry function
-	items  []item
-	feat   map[string]int
-	marker int
+	named   []string // named int types
+	prints  []string // lines of the entry function
+	items   []item
+	feat    map[string]int
+	marker  int
 }
 
 func (g *pgen) id() int { g.n++; return g.n }
@@ -692,6 +718,18 @@ func genProg(r *vh.Rng, idx int, class string, trueMain bool, size int) *prog {
 	} else {
 		p.Items = append(p.Items, imports...)
 		p.Items = append(p.Items, shuffled...)
+	}
+	// layout of the file (2/3 of the programs: not the canonical "item, blank line" layout)
+	if r.Chance(2, 3) {
+		p.Sep = []string{"\n\n", "\n", "\n\n\n", "\n\n"}[r.Intn(4)]
+		fe := fileEnds[r.Intn(len(fileEnds))]
+		p.End = fe.end
+		g.feat["file-end:"+fe.name]++
+		if p.Sep == "\n" {
+			g.feat["file-sep:single-newline"]++
+		}
+	} else {
+		g.feat["file-end:blank-line"]++
 	}
 	p.Feat = g.feat
 	return p
